@@ -29,7 +29,7 @@ fn info(tier: Tier) -> CheckInfo {
         id: "C09",
         level: "model_checking",
         rule: format!(
-            "Tier {}: one real client node runs get_immutable then put_immutable over 3 scripted endpoints (one holds the value). Deviation-bounded DFS (bound {}): at every network event of the operation window an adversary may inject one message - kind in {{bare response, response with token+nodes+ip vote, response carrying a valid value, error 203, error 301}} x transaction id in 0..=N+1 (all ids the node uses in the run, tids are sequential) x source in {{other IP same port, right IP other port, another endpoint's address}}; and every genuine reply may be duplicated, or delayed past the request timeout (compared with the run where it is lost). Oracle: results of both calls, routing tables, cached closest nodes, address votes (public_address, firewalled) and what the endpoints stored must equal the run without the deviation. States = distinct world digests (all node snapshots + datagram pool); every execution runs the real node.",
+            "Tier {}: one real client node runs get_peers then put_immutable over 3 scripted endpoints (two hold peers) plus a silent fourth one known only to one of them. Deviation-bounded DFS (bound {}): at every network event of the operation window an adversary may inject one message - kind in {{bare response, response with token+nodes+ip vote, response carrying a valid value, error 203, error 301}} x transaction id in 0..=N+1 (all ids the node uses in the run, tids are sequential) x source in {{other IP same port, right IP other port, another endpoint's address}}; and every genuine reply may be duplicated, delayed past the request timeout, delivered twice after the timeout (both compared with the run where it is lost), or delivered once in time and once after the timeout. Oracle: results of both calls, routing tables, cached closest nodes, address votes (public_address, firewalled) and what the endpoints stored must equal the run without the deviation. States = distinct world digests (all node snapshots + datagram pool); every execution runs the real node.",
             tier.name(),
             if tier.is_quick() { 1 } else { 2 }
         ),
@@ -65,7 +65,7 @@ impl Obs {
     fn diff(&self, o: &Obs) -> String {
         let mut d = vec![];
         if self.get != o.get {
-            d.push(format!("get_immutable result {} vs {}", self.get, o.get));
+            d.push(format!("get result {} vs {}", self.get, o.get));
         }
         if self.put != o.put {
             d.push(format!("put result {} vs {}", self.put, o.put));
@@ -165,10 +165,18 @@ fn scenario(chooser: Chooser, menu: &[Inj], reply_faults: bool, track: bool) -> 
     let mut w = World::new(chooser);
     w.track_states = track;
     let v1_target = krpc::immutable_target(V1);
-    let mut ids = crate::epnet::ranked_ids(&v1_target, 3);
+    let mut ids = crate::epnet::ranked_ids(&v1_target, 4);
     ids[0][0] ^= 0x80; // the bootstrap endpoint is far from the target
     let mut net = EpNet::new(&mut w, &ids);
     net.eps[2].imm.insert(v1_target, V1.to_vec());
+    net.eps[2].peers.insert(v1_target, vec![SocketAddrV4::new(Ipv4Addr::new(45, 4, 5, 6), 4545)]);
+    net.eps[1].peers.insert(v1_target, vec![SocketAddrV4::new(Ipv4Addr::new(45, 4, 5, 7), 4546)]);
+    // a fourth, silent endpoint that only endpoint 1 knows: when its (possibly delayed) answer
+    // arrives the lookup asks the silent one and stays open for another request timeout
+    net.eps[3].silent = true;
+    net.eps[0].knows = Some(vec![1, 2]);
+    net.eps[2].knows = Some(vec![0, 1]);
+    net.eps[1].knows = Some(vec![0, 2, 3]);
     let eps = net.addrs();
     let a = w.add_node(NodeCfg::new([9, 9, 9, 9], 7000).bootstrap(&eps[..1]).id([0x21; 20]));
     let a_addr = w.node_addr(a);
@@ -183,12 +191,12 @@ fn scenario(chooser: Chooser, menu: &[Inj], reply_faults: bool, track: bool) -> 
     });
 
     // operation window
-    w.faults.menu = vec![Fate::Deliver(DEFAULT_LATENCY), Fate::Dup(DEFAULT_LATENCY, 40 * MS), Fate::Deliver(900 * MS), Fate::Drop];
+    w.faults.menu = vec![Fate::Deliver(DEFAULT_LATENCY), Fate::Dup(DEFAULT_LATENCY, 40 * MS), Fate::Deliver(900 * MS), Fate::Drop, Fate::Dup(900 * MS, 930 * MS), Fate::Dup(DEFAULT_LATENCY, 900 * MS), Fate::Deliver(450 * MS)];
     w.faults.enabled = reply_faults;
     w.fault_filter = Some(Box::new(move |d: &Datagram| d.to == a_addr && d.from_node.is_none()));
     let start = w.now;
     let mut events = 0u32;
-    let get = w.call_get_immutable(a, v1_target.into());
+    let get = w.call_get_peers(a, v1_target.into());
     let mut put: Option<usize> = None;
     let horizon = w.now + 30 * SEC;
     let mut done_at = None;
@@ -238,6 +246,7 @@ fn scenario(chooser: Chooser, menu: &[Inj], reply_faults: bool, track: bool) -> 
     let fmt = |r: Option<&CallResult>| match r {
         Some(CallResult::Bytes(Some(v))) => format!("Some({})", hex(&v[..v.len().min(8)])),
         Some(CallResult::Bytes(None)) => "None".into(),
+        Some(CallResult::Peers(b)) => format!("peers{:?}", b),
         Some(CallResult::Put(Ok(id))) => format!("Ok({})", hex(&id.as_bytes()[..4])),
         Some(CallResult::Put(Err(e))) => format!("Err({e:?})"),
         Some(other) => format!("{other:?}"),
@@ -321,7 +330,7 @@ fn build_menu(base: &RunOut, tier: Tier, eps: &[SocketAddrV4]) -> Vec<Inj> {
 }
 
 fn eps_addrs() -> Vec<SocketAddrV4> {
-    (0..3).map(|i| SocketAddrV4::new(crate::epnet::pub_ip(i), 6881)).collect()
+    (0..4).map(|i| SocketAddrV4::new(crate::epnet::pub_ip(i), 6881)).collect()
 }
 
 fn describe(choices: &[u32], trace: &[crate::explore::ChoicePoint], menu: &[Inj]) -> String {
@@ -352,7 +361,7 @@ fn run(tier: Tier, shard: usize, nshards: usize, _seed: u64) -> Partial {
     let (_, b2) = scenario(Chooser::default_run(), &[], false, true);
     assert!(b1.obs == b2.obs && b1.steps == b2.steps && b1.digests.len() == b2.digests.len(), "MACHINERY: baseline is not deterministic");
     let base = b1;
-    out.witness("baseline get returned the value", base.obs.get.starts_with("Some"));
+    out.witness("baseline get returned the value", base.obs.get.starts_with("peers[[") );
     out.witness("baseline put returned Ok", base.obs.put.starts_with("Ok"));
     out.witness("baseline node learned endpoints", base.obs.rt.len() >= 2);
     out.gauge_max("tids_used_by_node", base.n_tids as u64);
@@ -426,14 +435,42 @@ fn run(tier: Tier, shard: usize, nshards: usize, _seed: u64) -> Partial {
     }
 
     // --- part 2: duplicates and late replies of genuine answers
-    let mut ex2 = Explorer::new(1, (shard, nshards));
+    let mut ex2 = Explorer::new(2, (shard, nshards));
     ex2.explore(&mut |chooser, count| {
         let (ch, r) = scenario(chooser, &[], true, false);
         if count {
             out.add("executions", 1);
             out.add("transitions", r.steps);
             let choices = ch.choices();
-            if let Some(pos) = choices.iter().position(|c| *c > 0) {
+            let devs: Vec<usize> = choices.iter().enumerate().filter(|(_, c)| **c > 0).map(|(i, _)| i).collect();
+            if devs.len() == 2 {
+                // pairs: "consumed at most once" - every additional copy of a genuine reply must
+                // be as good as absent, whenever the copies arrive and whatever else is slow.
+                // (Whether a single copy arriving after its request timed out is used is NOT
+                // judged here: the code keeps timed-out entries until they are reclaimed and
+                // feeds its round-trip estimate from such replies; see DESIGN.md section 10.)
+                let mut twin = choices.clone();
+                for i in &devs {
+                    twin[*i] = match choices[*i] {
+                        1 | 5 => 0, // duplicate / in-time + late copy -> a single in-time copy
+                        4 => 2,     // two late copies -> one late copy
+                        other => other,
+                    };
+                }
+                if twin != choices {
+                    let (_, reference) = scenario(Chooser::new(twin.clone()), &[], true, false);
+                    out.add("executions", 1);
+                    out.add("pairs_tried", 1);
+                    if r.obs != reference.obs {
+                        let kinds: Vec<&str> = devs.iter().map(|i| ["", "dup", "late", "lost", "late-dup", "intime+late", "slow450"][choices[*i] as usize]).collect();
+                        out.violation(
+                            format!("reply-fault-pair-has-effect/{}/{}", reference.obs.class(&r.obs), kinds.join("+")),
+                            format!("genuine replies at choice points {devs:?} with fates {kinds:?} vs the run with the extra copies removed: {}", reference.obs.diff(&r.obs)),
+                            json!({"part": "faults", "choices": choices}),
+                        );
+                    }
+                }
+            } else if let Some(pos) = choices.iter().position(|c| *c > 0) {
                 match choices[pos] {
                     1 => {
                         if r.obs != base.obs {
@@ -445,8 +482,19 @@ fn run(tier: Tier, shard: usize, nshards: usize, _seed: u64) -> Partial {
                         }
                         out.add("duplicates_tried", 1);
                     }
-                    2 => {
-                        // late reply: must equal the run in which it is lost
+                    5 => {
+                        // one copy in time, a second copy after expiry: same as no duplication
+                        if r.obs != base.obs {
+                            out.violation(
+                                format!("late-duplicate-has-effect/{}", base.obs.class(&r.obs)),
+                                format!("genuine reply #{pos} delivered once in time and once 900 ms later: {}", base.obs.diff(&r.obs)),
+                                json!({"part": "faults", "choices": choices}),
+                            );
+                        }
+                        out.add("duplicates_tried", 1);
+                    }
+                    2 | 4 => {
+                        // late reply (4: two late copies): must equal the run in which it is lost
                         let mut twin = choices[..=pos].to_vec();
                         twin[pos] = 3;
                         let (_, lost) = scenario(Chooser::new(twin), &[], true, false);
@@ -492,7 +540,11 @@ fn replay(v: &Value) -> Result<Option<Violation>, String> {
         "faults" => {
             let (_, r) = scenario(Chooser::new(choices.clone()), &[], true, false);
             let pos = choices.iter().position(|c| *c > 0).ok_or("no deviation")?;
-            let reference = if choices[pos] == 2 {
+            let ndev = choices.iter().filter(|c| **c > 0).count();
+            let reference = if ndev >= 2 {
+                let twin: Vec<u32> = choices.iter().map(|c| match c { 1 | 5 => 0, 4 => 2, o => *o }).collect();
+                scenario(Chooser::new(twin), &[], true, false).1.obs
+            } else if choices[pos] == 2 || choices[pos] == 4 {
                 let mut twin = choices[..=pos].to_vec();
                 twin[pos] = 3;
                 scenario(Chooser::new(twin), &[], true, false).1.obs
